@@ -3,6 +3,7 @@ mod elem;
 mod exec;
 mod hist;
 mod kinds;
+mod special;
 mod suites;
 
 use exec::*;
@@ -87,7 +88,7 @@ extern "C" fn on_fatal_signal(sig: libc::c_int) {
 fn install_signal_handlers() {
     unsafe {
         for s in [libc::SIGABRT, libc::SIGSEGV, libc::SIGBUS, libc::SIGILL, libc::SIGFPE] {
-            libc::signal(s, on_fatal_signal as usize);
+            libc::signal(s, on_fatal_signal as *const () as usize);
         }
     }
 }
@@ -143,8 +144,8 @@ pub struct UnitResult {
 }
 
 /// one execution of (hist, term), panics caught
-fn run_case(kind: KindId, env: &mut Env, hist: &[SOp], term: Term, pair: Option<KindId>, pair_env: &mut Env) -> u64 {
-    let r = std::panic::catch_unwind(std::panic::AssertUnwindSafe(|| exec_one(kind, env, hist, term)));
+fn run_case(kind: KindId, mode: Mode, env: &mut Env, hist: &[SOp], term: Term, pair: Option<KindId>, pair_env: &mut Env) -> u64 {
+    let r = std::panic::catch_unwind(std::panic::AssertUnwindSafe(|| exec_one(kind, mode, env, hist, term)));
     if r.is_err() {
         orx_verif_shim::alloc::track(false);
         let m = LAST_PANIC.with(|p| p.borrow().clone());
@@ -159,7 +160,7 @@ fn run_case(kind: KindId, env: &mut Env, hist: &[SOp], term: Term, pair: Option<
     }
     if let Some(u) = pair {
         // C13: the same history on the underlying reference-yielding iterator
-        let r2 = std::panic::catch_unwind(std::panic::AssertUnwindSafe(|| exec_one(u, pair_env, hist, term)));
+        let r2 = std::panic::catch_unwind(std::panic::AssertUnwindSafe(|| exec_one(u, mode, pair_env, hist, term)));
         if r2.is_err() {
             orx_verif_shim::alloc::track(false);
             pair_env.viol = None;
@@ -187,13 +188,13 @@ fn note_violation(res: &mut UnitResult, env: &Env, ki: &KindInfo, hist: &[SOp], 
         let upto = if v.step < hist.len() { v.step + 1 } else { hist.len() };
         let hs = show_hist(&hist[..upto]);
         let key = (tags.join("+"), v.class.to_string());
-        let e = res.viols.entry(key).or_insert_with(|| VAgg { count: 0, hist: hs.clone(), term: term.show(), len: env.len, detail: v.detail.clone(), hlen: upto + 100 });
+        let e = res.viols.entry(key).or_insert_with(|| VAgg { count: 0, hist: hs.clone(), term: term.show(), len: env.code, detail: v.detail.clone(), hlen: upto + 100 });
         e.count += 1;
         if upto < e.hlen {
             e.hlen = upto;
             e.hist = hs;
             e.term = term.show();
-            e.len = env.len;
+            e.len = env.code;
             e.detail = v.detail.clone();
         }
     }
@@ -236,7 +237,7 @@ fn run_unit(unit: usize, s: &suites::Suite, kind: KindId, len: usize, first: Opt
             if skip.contains(&index) || dead_at.is_some() {
                 continue;
             }
-            let h = run_case(kind, &mut env, &hist, term, pair, &mut pair_env);
+            let h = run_case(kind, s.mode, &mut env, &hist, term, pair, &mut pair_env);
             if DUMP.load(Relaxed) {
                 println!("{h:016x} {}|{}", show_hist(&hist), term.show());
             }
@@ -462,7 +463,7 @@ fn replay_cmd(args: &[String]) -> i32 {
     let mut pair_env = Env::new(pair.map(|k| k.info()).unwrap_or(ki), len);
     let mut hashes = vec![];
     for _ in 0..2 {
-        hashes.push(run_case(kind, &mut env, &hist, term, pair, &mut pair_env));
+        hashes.push(run_case(kind, s.mode, &mut env, &hist, term, pair, &mut pair_env));
     }
     println!("suite={sname} kind={} len={len} history={} term={}", ki.name, show_hist(&hist), term.show());
     println!("transcript hash {:016x} (second run {:016x})", hashes[0], hashes[1]);
